@@ -45,7 +45,9 @@ ASSUMPTIONS = ['whitening and the adjusted likelihoods are driven with >= 2 summ
                'raises inside matmul / np.diag: outside the domain on which the tree returns)',
                'Warton shrinkage: the reference accepts the textbook estimator with and without elfi\'s 1e-5 diagonal guard',
                'glasso shrinkage and the semi-parametric likelihood are not driven (no closed-form reference)',
-               'Ghurye-Olkin is driven with n >= d + 5 simulations',
+               'Ghurye-Olkin is driven with n >= d + 5 simulations; where M - (y-mu)(y-mu)^T/(1-1/n) is not positive definite the '
+               'published estimator is zero, so the reference demands -inf there (violation key ghurye-olkin-indefinite-psi, reported '
+               'without aborting the case); a smallest eigenvalue within 1e-9 (relative) of zero is left undecided',
                'a transition whose uniform draw is within 1e-6 (relative) of the acceptance ratio, or whose numerical Jacobian '
                'is not converged, may go either way (counted as ambiguous)',
                'adjusted likelihoods: the current state\'s log posterior is re-evaluated at the freshly sampled gamma from the '
@@ -54,7 +56,7 @@ ASSUMPTIONS = ['whitening and the adjusted likelihoods are driven with >= 2 summ
                'multivariate_normal calls']
 CONFIG = {
     'quick': {'shards': 16, 'cases': 40, 'timeout': 600, 'floor': 128},
-    'thorough': {'shards': 32, 'cases': 900, 'timeout': 3000, 'floor': 5760},
+    'thorough': {'shards': 32, 'cases': 700, 'timeout': 3000, 'floor': 4480},
 }
 REQUIRED = ['lik_std_checked', 'lik_whiten_checked', 'lik_warton_checked', 'lik_whiten_warton_checked', 'lik_go_checked',
             'lik_go_indefinite_checked', 'lik_mean_checked', 'lik_variance_checked', 'lik_checked_inside_runs',
@@ -267,7 +269,6 @@ def gen_mh(rng):
     # duplicated information makes the covariance singular: keep each column at most once, mean at most once
     seen, keep = set(), []
     for s in summaries:
-        key = tuple(s.get('cols', ['m']))
         cols = [c for c in s.get('cols', []) if ('c', c) not in seen]
         if s['kind'] == 'mean':
             if 'm' in seen:
@@ -403,23 +404,18 @@ def run_tf(ctx, case):
             ctx.event('tf_point_not_interior')
             continue
         arg = th.copy() if rs.rand() < 0.7 else th.reshape(1, -1).copy()
-        tt = np.asarray(BSL._para_logit_transform(arg, bound), dtype=float)
-        if tt.shape != (p,) or not np.all(np.isfinite(tt)):
-            raise Violation('transform-shape', 'transform of an interior point returned %r' % (tt,), {'bound': bound, 'theta': th})
-        back = np.asarray(BSL._para_logit_back_transform(tt.copy(), bound), dtype=float)
+        tt = np.ravel(np.asarray(BSL._para_logit_transform(arg, bound), dtype=float))
+        if tt.size != p or not np.all(np.isfinite(tt)):
+            raise Violation('transform-value', 'transform of an interior point returned %r' % (tt,), {'bound': bound, 'theta': th})
+        back = np.ravel(np.asarray(BSL._para_logit_back_transform(tt.copy(), bound), dtype=float))
+        if back.size != p:
+            raise Violation('transform-value', 'back-transform of %d values returned %r' % (p, back), {'bound': bound, 'theta': th})
         for i in range(p):
             sc = 1.0 + abs(th[i]) + sum(abs(x) for x in bound[i] if np.isfinite(x))
             if not abs(back[i] - th[i]) <= 1e-12 * sc:
                 raise Violation('transform-roundtrip', 'back-transform(transform(theta)) = %r for theta = %r (bound %s, type %d)' % (
                     back[i], th[i], bound[i].tolist(), types[i]), {'bound': bound, 'theta': th, 'transformed': tt, 'back': back})
             ctx.event('tf_roundtrip_type%d' % types[i])
-        # the two-sided / one-sided images stay inside the bounds for any finite transformed value
-        y = rs.randn(p) * 5
-        img = np.asarray(BSL._para_logit_back_transform(y.copy(), bound), dtype=float)
-        for i in range(p):
-            if not (bound[i, 0] <= img[i] <= bound[i, 1]):
-                raise Violation('transform-range', 'back-transform(%r) = %r outside bound %s' % (y[i], img[i], bound[i].tolist()),
-                                {'bound': bound, 'y': y, 'image': img})
 
 
 # ---------------------------------------------------------------------------------------
@@ -514,7 +510,6 @@ def run_mh(ctx, case):
     misspec = variant in ('mean', 'variance')
 
     # bounds / start / proposal covariance in the requested parameter order
-    by = {p['name']: p for p in case['params']}
     pos = {n: i for i, n in enumerate(created)}
     bound = None
     if case['bounds'] is not None:
